@@ -208,6 +208,9 @@ func armPol(x *ExecCtx, a ledgerArm) pol {
 	if a.Pred != nil {
 		return x.PolOnEdge(a.Pred, a.PhiBlk)
 	}
+	if a.At != nil {
+		return x.PolAt(a.At.Block())
+	}
 	return x.PolAt(a.Site.Block())
 }
 
